@@ -263,6 +263,7 @@ let rule_name = function
   | R12_post_claim_scan_incomplete -> "post_claim_scan_incomplete"
   | R12_gap_wait_never_ends -> "gap_wait_never_ends" | R11_supervision_never_ends -> "supervision_never_ends"
   | R15_no_reply_no_timeout -> "no_reply_no_timeout"
+  | R06_no_backoff -> "no_backoff"
   | R15_asked_after_all_declined -> "asked_after_all_declined" | R15_not_passed_after_all_declined -> "not_passed_after_all_declined"
   | R15_passed_before_all_declined -> "passed_before_all_declined" | R15_cycle_after_hold_time -> "cycle_after_hold_time"
   | R13_low_prio_after_hold_time -> "low_prio_after_hold_time" | R13_second_cycle_after_hold_time -> "second_cycle_after_hold_time"
@@ -302,11 +303,12 @@ let handle (case : string) (out : string) : unit =
   let sections = List.map String.trim (String.split_on_char '/' case) in
   let header, rest = (match sections with h :: r -> (split_ws h, r) | [] -> raise (Bad "empty case")) in
   let p, _seed = (match header with
-    | ["FDL"; a; b; sl; hsa; gap; ttr; rt; seed; _t0] ->
+    | "FDL" :: a :: b :: sl :: hsa :: gap :: ttr :: rt :: seed :: _t0 :: opt ->
+        let tsdr = (match opt with [] -> 11 | [x] -> int_of_string x | _ -> raise (Bad "header")) in
         ({ p_address = z_of_int (int_of_string a); p_baud = baud_of_int (int_of_string b);
            p_slot_bits = z_of_int (int_of_string sl); p_ttr_bits = z_of_int (int_of_string ttr);
            p_gap_wait = z_of_int (int_of_string gap); p_hsa = z_of_int (int_of_string hsa);
-           p_max_retry = z_of_int (int_of_string rt); p_min_tsdr_bits = z_of_int 11; p_watchdog = None }, seed)
+           p_max_retry = z_of_int (int_of_string rt); p_min_tsdr_bits = z_of_int tsdr; p_watchdog = None }, seed)
     | _ -> raise (Bad "header")) in
   let apps = List.filter_map (fun s ->
     match split_ws s with
@@ -386,7 +388,22 @@ let handle (case : string) (out : string) : unit =
     | Poll _ :: TimeoutEv :: tl -> TimeoutEv :: drop_panicked tl
     | e :: tl -> e :: drop_panicked tl
     | [] -> [] in
-  let violated = monitor p (nat_of_int (List.length apps)) (monitor_events (drop_panicked events)) in
+  let mevents = drop_panicked events in
+  let violated = monitor p (nat_of_int (List.length apps)) (monitor_events mevents) in
+  (* promptness (Model/FdlPrompt.v): needs to know whether a status request waits for its reply *)
+  let contains hay k =
+    let n = String.length hay and m = String.length k in
+    let rec f i = i + m <= n && (String.sub hay i m = k || f (i + 1)) in f 0 in
+  let pending_of obs = contains obs ",ListenToken{Some(" || contains obs ",ActiveIdle{Some(" in
+  let flags = List.map (fun ev -> match ev with Api (_, o) -> pending_of o | Poll pr -> pending_of pr.obs | _ -> false) mevents in
+  let pviolated = pmonitor p (List.combine (monitor_events mevents) flags) in
+  (match pviolated with
+   | [] -> ()
+   | (step, r) :: _ ->
+       let name = (match r with P01_sync_pause_exceeded -> "sync_pause_exceeded") in
+       count ("violated:" ^ pid_name (prule_prop r) ^ ":" ^ name);
+       report_fail (pid_name (prule_prop r)) name case
+         (Printf.sprintf "event %d: %s" (int_of_nat step) (try List.nth (String.split_on_char ';' out) (int_of_nat step) with _ -> "?")));
   if violated = [] then count "monitors:ok"
   else begin
     let seen = Hashtbl.create 8 in
